@@ -249,6 +249,13 @@ func c16Job(shard, nshards int, tier string) Job {
 			}
 		}
 		sort.Strings(names)
+		var variantNames []string
+		for n := range menu {
+			if strings.Contains(n, "@") {
+				variantNames = append(variantNames, n)
+			}
+		}
+		sort.Strings(variantNames)
 		var polSets [][]string
 		polSets = append(polSets, []string{})
 		for i := range names {
@@ -335,10 +342,16 @@ func c16Job(shard, nshards int, tier string) Job {
 						staleClause: "membership-from-old-labels-kept-after-pod-update"})
 				}
 				for i, pn := range pl {
-					if _, ok := menu[pn+"@wide"]; ok {
-						wide := append([]string{}, pl...)
-						wide[i] = pn + "@wide"
-						starts = append(starts, start{name: "policies " + fmt.Sprint(wide), pods: ps, pols: wide})
+					for _, vn := range variantNames {
+						if !strings.HasPrefix(vn, pn+"@") {
+							continue
+						}
+						// another version of the object under the same name: full sync from it, and an update event from it
+						other := append([]string{}, pl...)
+						other[i] = vn
+						starts = append(starts, start{name: "policies " + fmt.Sprint(other), pods: ps, pols: other})
+						starts = append(starts, start{name: "policy event: update from " + vn, pods: ps, pols: other,
+							events: []c15Event{{Kind: "policy-update", NP: menu[pn], OldP: menu[vn]}}})
 					}
 				}
 				for _, st := range starts {
@@ -447,7 +460,7 @@ func quirkSet(mask int) []string {
 func init() {
 	register(&Property{ID: "C16", Level: "exploration", QuickS: 120, ThoroughS: 900,
 		Assume: []string{"verdicts come from a packet walk (table filter, hook FORWARD, NEW connections) over the rules and sets the real PolicyManager installed in the netfilter simulator mc/nfsim",
-			"clusters: 2 namespaces, pods web/db/cli2 (on or off the node), all sets of <=3 policies out of 19 shapes (two rules sharing their first peer, pod/namespace/combined selectors, ipBlock with except, tcp/udp ports incl. one number under both protocols and a port without protocol, deny-all, allow-all, both directions, implicit egress type)",
+			"clusters: 2 namespaces, pods web/db/cli2 (on or off the node), all sets of <=3 policies out of 20 shapes (two rules sharing their first peer, pod/namespace/combined selectors, ipBlock with except, tcp/udp ports incl. one number under both protocols and a port without protocol, deny-all, allow-all, both directions, implicit egress type)",
 			"flows: every ordered pair of pod and external addresses (inside block / inside except / outside) with a local pod at either end x {tcp,udp} x {80,81,53}; host-originated traffic, named ports and SCTP are outside the alphabet",
 			"reference = evaluator written from the NetworkPolicy API semantics with five named, switchable deviations used only to attribute disagreements to known findings"},
 		Rule: "for every (pod set, policy set): one real full sync, then every flow is walked through the installed rules and compared with the reference verdict; distinct/non-trivial = distinct (cluster, policies, flow, verdict) tuples",
